@@ -1,7 +1,7 @@
 (** C04 — mass leaves only via fixation/loss.  Only statements; every proof is [exact <lemma>]. *)
 From Coq Require Import Reals List Lra Lia Bool.
 From Dadi Require Import Base.Num Base.NumR Model.Tridiag Model.Scheme Model.NDSweep
-  Proofs.TridiagProofs Proofs.SchemeProofs Proofs.MassBalance Proofs.Drivers Proofs.NDLines Proofs.NDSweepProofs Proofs.NDWeights Proofs.IntegrateLinear Proofs.IntegrateRescale Proofs.FrozenMarginal Proofs.FrozenStep Proofs.TotalMass.
+  Proofs.TridiagProofs Proofs.SchemeProofs Proofs.MassBalance Proofs.Drivers Proofs.NDLines Proofs.NDSweepProofs Proofs.NDWeights Proofs.IntegrateLinear Proofs.IntegrateRescale Proofs.SumLemmas Proofs.FrozenMarginal Proofs.FrozenStep Proofs.TotalMass.
 Import ListNotations.
 Local Open Scope R_scope.
 
